@@ -42,7 +42,16 @@ var sentinels = []error{commonerrors.ErrNotImplemented, commonerrors.ErrNoExtens
 const (
 	kTimeout   = 7
 	kCancelled = 20
+	kUnknown   = 16
 )
+
+// genTarget: the target kind of a constructor — every eighth time no kind at all (nil: "of type ErrUnknown")
+func genTarget(rnd *hx.Rand, depth int) ([]string, eNode) {
+	if rnd.Chance(12) {
+		return []string{"N"}, eNode{tok: "N", err: nil, kinds: map[int]bool{kUnknown: true}}
+	}
+	return genExpr(rnd, depth)
+}
 
 func hexOrDash(s string) string {
 	if s == "" {
@@ -136,7 +145,7 @@ func genExpr(rnd *hx.Rand, depth int) (toks []string, n eNode) {
 	mh := hexOrDash(msg)
 	switch rnd.Intn(3) {
 	case 0: // New / Errorf / Newf
-		tt, t := genExpr(rnd, depth-1)
+		tt, t := genTarget(rnd, depth-1)
 		var e error
 		switch rnd.Intn(3) {
 		case 0:
@@ -149,7 +158,7 @@ func genExpr(rnd *hx.Rand, depth int) (toks []string, n eNode) {
 		_, isWrap := t.err.(interface{ Unwrap() error })
 		return append(tt, "new:"+mh), eNode{err: e, kinds: convKinds(t), ctxCause: t.ctxCause, depth: t.depth + 1, innerIsWrap: isWrap}
 	case 1: // WrapError(target, orig, msg)
-		tt, t := genExpr(rnd, rnd.Intn(depth))
+		tt, t := genTarget(rnd, rnd.Intn(depth))
 		var ot []string
 		var o eNode
 		origNil := rnd.Chance(15)
@@ -172,7 +181,7 @@ func genExpr(rnd *hx.Rand, depth int) (toks []string, n eNode) {
 		}
 		return append(append(tt, ot...), "we:"+mh), eNode{err: e, kinds: kinds, ctxCause: t.ctxCause || (!origNil && o.ctxCause), depth: t.depth + 1, innerIsWrap: isWrap}
 	default: // WrapIfNotCommonError
-		tt, t := genExpr(rnd, rnd.Intn(depth))
+		tt, t := genTarget(rnd, rnd.Intn(depth))
 		var ot []string
 		var o eNode
 		origNil := rnd.Chance(10)
